@@ -352,6 +352,23 @@ def check(chk):
     chk.ob("UNIT-7", "credits do not expire during a game", rms >= {"'clear_fractional_credits'", "'clear_all_credits'"}, gs.where(), detail=str(rms),
            construct=gs.ident, text="expiry paused in game")
 
+    # ------------------------------------------------------------ TIER-1: the tier loop adds, it never replaces
+    # per added unit: the progress counter moves by one, the bonus the table gives for that progress is *added* to the total, the counter
+    # wraps at the table's period; the total starts as previous + added units
+    tl2 = [x for x in ast.walk(a.node) if isinstance(x, ast.For) and "range(credit_units)" in src(x.iter)]
+    chk.need(tl2, "TIER-1", "_add_credit_units walks the added units one by one", a)
+    body = tl2[0].body
+    forms = [(type(x).__name__, src(x.target if isinstance(x, ast.AugAssign) else x.targets[0]), type(x.op).__name__ if isinstance(x, ast.AugAssign) else "=",
+              src(x.value)) for x in body if isinstance(x, (ast.Assign, ast.AugAssign))]
+    P = "self.credit_units_for_pricing_tiers"
+    want = [("AugAssign", P, "Add", "1"), ("Assign", "bonus_credit_units", "=", "self.pricing_table[%s]" % P),
+            ("AugAssign", "total_credit_units", "Add", "bonus_credit_units"), ("AugAssign", P, "Mod", "self.pricing_tiers_wrap_around")]
+    chk.ob("TIER-1", "per added unit: progress + 1, bonus looked up for that progress and added to the total, progress wrapped at the table's period", forms == want,
+           a.where(tl2[0]), detail=str(forms), construct=a.ident, text="tier loop body")
+    init = [x for x in walk_local(a.node) if isinstance(x, ast.Assign) and src(x.targets[0]) == "total_credit_units" and not any(y is x for y in ast.walk(tl2[0]))]
+    ok = bool(init) and sorted(src(init[0].value).replace(" ", "").split("+")) == sorted(["credit_units", "previous_credit_units"]) and init[0].lineno < tl2[0].lineno
+    chk.ob("TIER-1", "the new balance starts as previous balance + added units", ok, a.where(), construct=a.ident, text="total init")
+
     # ------------------------------------------------------------ UNIT-8
     # the credit unit divides into both the smallest coin and the game price: on every path of _calculate_credit_units the unit is bounded
     # by both (otherwise units-per-game = int(price / unit) becomes 0: gates always open, nothing deducted).  Orderings only - no arithmetic.
@@ -386,6 +403,8 @@ def battery():
         M("unit not clamped when the coin is cheaper", CR, "            if self.credit_unit > min_currency_value:\n                self.credit_unit = min_currency_value\n", "", "UNIT-8"),
         M("units per game from the coin", CR, "int(price_per_game / self.credit_unit)", "int(min_currency_value / self.credit_unit)", "UNIT-8"),
         M("twin: clamp via min()", CR, "            if self.credit_unit > price_per_game:\n                self.credit_unit = price_per_game\n", "            self.credit_unit = min(self.credit_unit, price_per_game)\n", None),
+        M("tier bonus replaces the balance", CR, "                total_credit_units += bonus_credit_units", "                total_credit_units = bonus_credit_units", "TIER-1"),
+        M("tier progress stuck at one", CR, "                self.credit_units_for_pricing_tiers += 1\n                bonus_credit_units", "                self.credit_units_for_pricing_tiers = 1\n                bonus_credit_units", "TIER-1"),
     ]
 
 
